@@ -28,6 +28,13 @@ ASSUMPTIONS = [
 BOUNDS = {"quick": dict(sequence_length="<= 2 (all) + selected length 3", N=2), "thorough": dict(sequence_length="<= 3 (all)", N=2)}
 OUTSIDE = ["'within tolerance' agreement of adaptive methods across different splittings", "literal bit equality in IEEE arithmetic (observed in replays only)"]
 
+ASSUMPTIONS += [
+    "event histories also WITHOUT dense output (detector reporting in the 1st/2nd/3rd examined step; DT-E: the run before the reset on another step)",
+    "implicit family without a user Jacobian (fd-jacobian instances): the real finite-difference JacobianWrapper behind DiffRHS.jac on an affine rhs k*a*y + b; the "
+    "stage solver is a congruent function of its initial guess, of (t, y, h) and of the residual and block Jacobian evaluated through the real code; operation CONST "
+    "replaces the constants",
+    "near-target no-op: integrate(t_last + delta) with |delta| < 32*eps; other-system instance: two systems built without constants",
+]
 OPS = ["I", "IT", "DT", "TOL", "M", "KV", "E", "F", "R"]
 
 
